@@ -631,3 +631,32 @@ def no_inverse_exit_rule(rep, u, names=("bn_mod_inv2", "bn_mod_div_mont")):
         desc = "%s: after the Euclid loop the gcd is tested to be 1 before success is reported" % name
         (rep.proved if ok else rep.violated)("R-DOMAIN", fn, "gcd-is-one", desc, "" if ok else "no test: inverse of 6 modulo 15 returns 0 with 13 (6 * 13 = 3 mod 15)")
     return n
+
+
+# ------------------------------------------------------------------------------------------------ R-TOPDIGIT (third pass)
+# functions whose operands may legally have no digits at all (value 0) and that look at "the top digit" num[digits - 1]
+TOP_DIGIT_ZERO_OK = {"bn_sub": "0 - 0 is a legal call (ec_point_proj_add_mix with a zero coordinate reaches it through bn_mod_sub)"}
+
+
+def top_digit_rule(rep, fn):
+    """num[digits - 1] is read only where digits == 0 is excluded (index -1 reads the word in front of the array)"""
+    from rules import r_range
+    if fn.name not in TOP_DIGIT_ZERO_OK:
+        return 0
+    n = 0
+    for pos, root, x, ps in fn.nodes():
+        if x.get("k") != "sub":
+            continue
+        i = core.strip_casts(x["i"])
+        if not (i.get("k") == "bin" and i["op"] == "-" and const_val(i["y"]) == 1):
+            continue
+        v = core.strip_casts(i["x"])
+        if not (core.is_ref(v) or v.get("k") == "mem"):
+            continue
+        n += 1
+        rep.functions.add(fn.name)
+        ok, why = r_range.excludes_zero(fn, pos, v)
+        desc = "%s: %s is read only when %s != 0" % (fn.name, key(x)[:40], key(v))
+        (rep.proved if ok else rep.violated)("R-TOPDIGIT", fn, "top-digit-needs-a-digit:%s" % key(x)[:40], desc, why if ok else
+                                             "with both operands 0 the index is -1 (UBSan: index 18446744073709551615 out of bounds for type 'bn_digit_t[22]'); %s" % TOP_DIGIT_ZERO_OK[fn.name], x.get("ln"))
+    return n
